@@ -32,6 +32,8 @@ type directive struct {
 	Gen  string // gombok | template_gen | monad_gen
 	// Fixture: the directive belongs to a fixture package of /verif, not to the repository
 	Fixture bool
+	// MayFail: the fixture package has a MAYFAIL file - the generator may refuse its (deliberately invalid) input
+	MayFail bool
 }
 
 // repoRoot is /repo; VERIF_REPO overrides it only for trying seeded changes in scratch worktrees.
@@ -193,6 +195,8 @@ func fixtureDirectives() []directive {
 	for _, name := range fixtureNames() {
 		files, _ := filepath.Glob(filepath.Join(verifDir(), "harness", "c13fixtures", name, "*.go.txt"))
 		sort.Strings(files)
+		_, statErr := os.Stat(filepath.Join(verifDir(), "harness", "c13fixtures", name, "MAYFAIL"))
+		mayFail := statErr == nil
 		for _, f := range files {
 			b, _ := os.ReadFile(f)
 			pkg, ln := "", 0
@@ -203,7 +207,7 @@ func fixtureDirectives() []directive {
 				}
 				if strings.HasPrefix(t, "//go:generate go run github.com/csgura/fp/") {
 					out = append(out, directive{Dir: filepath.Join(fixtureRoot, name), File: strings.TrimSuffix(filepath.Base(f), ".txt"), Pkg: pkg, Line: ln,
-						Gen: filepath.Base(strings.Fields(t)[3]), Fixture: true})
+						Gen: filepath.Base(strings.Fields(t)[3]), Fixture: true, MayFail: mayFail})
 				}
 			}
 		}
@@ -275,6 +279,7 @@ type c13seedResult struct {
 	fixOut    []string // fixture output after each pass
 	editOut   []string // fixture output after the scripted source edit (regenerated on top / generated from scratch)
 	editDiff  string
+	refused   int      // executions in which a generator refused a MAYFAIL fixture
 	viaLink   int      // chunks whose generators ran in a checkout reached through a symbolic link
 }
 
@@ -358,6 +363,13 @@ func c13OneSeed(scratch, binDir string, dirs []directive, seed uint64, idx int, 
 					mu.Lock()
 					res.execs++
 					mu.Unlock()
+					if err != nil && d.MayFail {
+						// allowed to refuse this input; what it left behind is compared like any other fixture output
+						mu.Lock()
+						res.refused++
+						mu.Unlock()
+						continue
+					}
 					if err != nil {
 						fail(fmt.Sprintf("%s in %s (%s) failed: %v\n%s", d.Gen, d.Dir, d.File, err, tail(out, 1500)))
 						return false
